@@ -231,6 +231,7 @@ func (ex *Exec) entryState() *State {
 	st.galloc = I64(0)
 	st.ghost["rspos"] = I64(-1)
 	st.ghost["rsb"] = BVI(8, 0)
+	st.ghost["alloc"] = I64(0)
 	ex.entryHeap = st
 	if ex.fc != nil {
 		for _, c := range ex.fc.Requires {
@@ -303,6 +304,9 @@ func (ex *Exec) cutState(base *State, cut *Cut) *State {
 	st.ghost["herr"] = ex.fresh("ghost_herr@"+tag, ErrSort)
 	st.ghost["rspos"] = ex.fresh("ghost_rspos@"+tag, BV(64))
 	st.ghost["rsb"] = ex.fresh("ghost_rsb@"+tag, BV(8))
+	ga := ex.fresh("ghost_alloc@"+tag, BV(64))
+	st.assume(And(Sle(I64(0), ga), Sle(ga, I64(1<<58))))
+	st.ghost["alloc"] = ga
 	// regions: non-input contents are unknown
 	for root := range st.store {
 		if r, ok := root.(*Region); ok {
